@@ -28,7 +28,8 @@ func newBaseStreamDataHandle() *baseStreamDataHandle {
 }
 
 func (s *baseStreamDataHandle) HasStreamData(data []byte) bool {
-	return bytes.Contains(data, []byte{0x30, 0x31, 0x63, 0x64}) // 808543076 = 0x30 0x31 0x63 0x64
+	// 帧头标识在数据的最前面 不能用Contains 否则内容里面带有01cd的0x1210等报文会被当成码流数据
+	return bytes.HasPrefix(data, []byte{0x30, 0x31, 0x63, 0x64}) // 808543076 = 0x30 0x31 0x63 0x64
 }
 
 func (s *baseStreamDataHandle) HasMinHeadLen(data []byte) bool {
